@@ -249,9 +249,21 @@ class Hist:
                 self.nontrivial = True
             elif op == 'make_unique':
                 e = self.any_ent(vmf)
+                if rng.random() < 0.3:
+                    # ... also asked of an entity that is not (or no longer) in the map: it must stay out of the indexes
+                    outside = [o for o in self.detached if o.map is vmf]
+                    if outside and rng.random() < 0.5:
+                        e = rng.choice(outside)
+                    else:
+                        keys = {'classname': rng.choice(CLASSES[:-2])}
+                        if rng.random() < 0.7:
+                            keys[rng.choice(KEY_NAME)] = e['targetname'] if e is not None and rng.random() < 0.6 else rng.choice(NAMES)
+                        e = Entity(vmf, keys=keys)
+                        self.detached.append(e)
+                    self.run.count('make_unique_on_entities_outside_the_map')
                 if e is None:
                     return
-                self.log.append(f'make_unique map{mi} (name {e["targetname"]!r})')
+                self.log.append(f'make_unique map{mi} (name {e["targetname"]!r}, in_map={e in vmf.entities})')
                 e.make_unique(rng.choice(('', 'auto', 'Door')))
                 self.nontrivial = True
                 # what it is for: afterwards no other entity of the map answers to this name (names are case-insensitive)
@@ -467,4 +479,4 @@ def replay(run, data) -> None:
 
 
 # (kept at the end of the file so that the text above stays the description the check was first built to)
-RULE += ' ' + "Later additions: remove_ent / remove() of worldspawn; add_ent / add_ents of entities already in the map (and of worldspawn), then one removal; clear() on worldspawn; non-string values for targetname / classname; search('') finds nothing."
+RULE += ' ' + "Later additions: remove_ent / remove() of worldspawn; add_ent / add_ents of entities already in the map (and of worldspawn), then one removal; clear() on worldspawn; non-string values for targetname / classname; search('') finds nothing. make_unique() is also asked of entities that are not, or no longer, in the map: they must stay out of the indexes."
